@@ -1,0 +1,146 @@
+//go:build verif
+
+package reactive
+
+// Contracts for the reactive Variable / Set / Event subscription protocol (property C13), read by the verification
+// machinery in /verif. Comment-only file.
+//
+// The protocol: a writer serialises on the update-order mutex, changes the value, takes the next update id and a
+// snapshot of the callback list in ONE critical section of the value mutex, and then invokes every snapshot callback
+// under that callback's execution lock, with exactly the (previous, new) pair of that update, still holding the
+// update-order mutex. A subscriber is registered, reads the state it will report first and takes the execution lock of
+// its callback in ONE critical section of the value mutex, and delivers that state before it releases the execution
+// lock. A callback is only invoked while its execution lock is held and after the unsubscribed flag was found clear
+// under that lock; unsubscribing sets the flag under the lock. These per-function clauses are what the contracts
+// check; that they imply "every change exactly once and in order" is the argument in /verif/DESIGN.md §12.15.
+
+/*@
+global regval U_Type     -- the value read in the registering critical section (ghost; Type is the type parameter)
+global regid Int    -- the update id read in the registering critical section (ghost)
+
+type callback
+  monitor executionMutex level 9 guards unsubscribed, lastUpdate
+  callback Invoke()
+
+type variable
+  monitor updateOrderMutex level 6 guards
+  callback transformationFunc(cur, new) (r)
+type readableVariable
+  monitor valueMutex level 7 guards value, uniqueUpdateID
+
+-- update ids: strictly increasing
+func uniqueID.Next
+  opt sequential
+  opt assume-no-overflow          -- fewer than 2^64 updates
+  requires u != nil
+  modifies *u
+  ensures *u == old(*u) + 1 && r0 == *u
+
+func newCallback
+  ensures r0 != nil && fresh(r0) && !r0.unsubscribed && r0.lastUpdate == 0 && unlocked(r0.executionMutex)
+
+-- true: the caller now holds the execution lock, the callback is not unsubscribed and is tagged with this update;
+-- false: nothing is held
+func callback.LockExecution
+  requires c != nil && unlocked(c.executionMutex)
+  modifies monitor(c)
+  ensures r0 ==> held(c.executionMutex) && !c.unsubscribed && c.lastUpdate == updateID
+  ensures !r0 ==> unlocked(c.executionMutex)
+
+-- the decision itself (no other goroutine): skipped exactly when unsubscribed or already tagged with this update
+func callback.LockExecution#sequential
+  opt sequential
+  requires c != nil && unlocked(c.executionMutex)
+  modifies c.lastUpdate
+  ensures r0 <==> !old(c.unsubscribed) && !(updateID != 0 && updateID == old(c.lastUpdate))
+  ensures r0 ==> held(c.executionMutex) && c.lastUpdate == updateID
+  ensures !r0 ==> unlocked(c.executionMutex) && c.lastUpdate == old(c.lastUpdate)
+  ensures c.unsubscribed == old(c.unsubscribed)
+
+func callback.UnlockExecution
+  requires c != nil && held(c.executionMutex)
+  ensures unlocked(c.executionMutex)
+
+-- the flag is set under the execution lock: it cannot change while a writer is between its check and the invocation
+func callback.MarkUnsubscribed
+  requires c != nil && unlocked(c.executionMutex)
+  modifies monitor(c)
+  ensures unlocked(c.executionMutex)
+
+func callback.MarkUnsubscribed#sequential
+  opt sequential
+  requires c != nil && unlocked(c.executionMutex)
+  modifies c.unsubscribed
+  ensures unlocked(c.executionMutex) && c.unsubscribed && c.lastUpdate == old(c.lastUpdate)
+
+-- ---------------------------------------------------------------------------------------------------------------
+-- Variable
+
+-- one critical section of the value mutex: read, transform, store, next id, snapshot
+func variable.updateValue
+  opt twophase
+  requires v != nil && v.readableVariable != nil && unlocked(v.readableVariable.valueMutex) && v.transformationFunc != nil && newValueGenerator != nil && v.readableVariable.registeredCallbacks != nil
+  callback newValueGenerator(cur) (r)
+  modifies monitor(v.readableVariable)
+  ensures unlocked(v.readableVariable.valueMutex)
+
+-- what that critical section does (no other goroutine): previous value, new value stored, and - only if the value
+-- changed - the next update id and the callbacks registered at that moment, in registration order
+func variable.updateValue#sequential
+  opt sequential
+  opt assume-no-overflow
+  requires v != nil && v.readableVariable != nil && unlocked(v.readableVariable.valueMutex) && v.transformationFunc != nil && newValueGenerator != nil && v.readableVariable.registeredCallbacks != nil
+  callback newValueGenerator(cur) (r)
+  modifies v.readableVariable.value, v.readableVariable.uniqueUpdateID
+  ensures unlocked(v.readableVariable.valueMutex)
+  ensures r1 == old(v.readableVariable.value) && v.readableVariable.value == r0
+  ensures r0 != r1 ==> r2 == old(v.readableVariable.uniqueUpdateID) + 1 && v.readableVariable.uniqueUpdateID == r2 && r2 != 0
+  ensures r0 != r1 ==> len(r3) == sel(ds.llen, v.readableVariable.registeredCallbacks)
+  ensures r0 != r1 ==> forall i Int :: 0 <= i && i < len(r3) ==> r3[i] == sel(sel(ds.lseq, v.readableVariable.registeredCallbacks), i)
+  ensures r0 == r1 ==> v.readableVariable.uniqueUpdateID == old(v.readableVariable.uniqueUpdateID) && r2 == 0 && len(r3) == 0
+
+-- a write: the update-order mutex is held from before the value changes until every snapshot callback has been
+-- served; a callback is invoked only under its execution lock, tagged with this update and not unsubscribed, with
+-- exactly the (previous, new) pair of this update
+func variable.Compute
+  requires v != nil && v.readableVariable != nil && unlocked(v.updateOrderMutex) && unlocked(v.readableVariable.valueMutex) && v.transformationFunc != nil && computeFunc != nil && v.readableVariable.registeredCallbacks != nil
+  callback computeFunc(cur) (r)
+  modifies everything
+  ghost before call variable.updateValue: assert held(v.updateOrderMutex)
+  ghost after call variable.updateValue: assume forall i Int :: 0 <= i && i < len(r3) ==> r3[i] != nil        -- the list holds created callbacks only
+  ghost before call callback#Invoke: assert held(v.updateOrderMutex) && held(registeredCallback.executionMutex) && !registeredCallback.unsubscribed && registeredCallback.lastUpdate == updateID
+  ghost before call callback#Invoke: assert arg0 == previousValue && arg1 == newValue && newValue != previousValue
+  loop 1 invariant held(v.updateOrderMutex)
+  loop 1 invariant forall i Int :: 0 <= i && i < len(registeredCallbacks) ==> registeredCallbacks[i] != nil && unlocked(registeredCallbacks[i].executionMutex)
+  ensures unlocked(v.updateOrderMutex)
+
+-- a subscription: in ONE critical section of the value mutex the current value is read, the callback is appended to
+-- the list and its execution lock is taken (tagged with the current update id); the value read there is what the
+-- callback is told first - (zero, value) - before the execution lock is released
+-- (sequential reading: the new callback cannot have been touched by another goroutine before the value mutex is
+-- released - no writer can have a snapshot containing it, the unsubscribe handle has not been returned - so taking its
+-- execution lock succeeds)
+func readableVariable.OnUpdate
+  opt sequential
+  requires r != nil && unlocked(r.valueMutex) && r.registeredCallbacks != nil && callback != nil
+  callback callback(prev, new)
+  modifies everything
+  ghost after call newCallback: regval = r.value
+  ghost after call newCallback: regid = r.uniqueUpdateID
+  ghost before call newCallback: assert held(r.valueMutex)
+  ghost before call List.PushBack: assert held(r.valueMutex) && arg0 == createdCallback
+  ghost before call callback.LockExecution: assert held(r.valueMutex) && arg0 == createdCallback && arg1 == regid && r.uniqueUpdateID == regid && r.value == regval
+  ghost before unlock: assert held(createdCallback.executionMutex)
+  ghost before call callback#Invoke: assert held(createdCallback.executionMutex) && unlocked(r.valueMutex)
+  ghost before call callback#Invoke: assert arg0 == emptyValue && arg1 == regval
+  ensures unlocked(r.valueMutex)
+
+-- unsubscribe: the callback leaves the list and is marked under its execution lock; once this has returned no writer
+-- can pass LockExecution for it any more
+func readableVariable.OnUpdate$1
+  opt sequential
+  requires r != nil && *r != nil && (*r).registeredCallbacks != nil && createdCallback != nil && *createdCallback != nil && callbackElement != nil && unlocked((*createdCallback).executionMutex)
+  modifies (*createdCallback).unsubscribed, ghost(ds.llen), ghost(ds.lseq)
+  ghost before call List.Remove: assert arg0 == *callbackElement
+  ensures (*createdCallback).unsubscribed && unlocked((*createdCallback).executionMutex)
+@*/
